@@ -525,7 +525,17 @@ where
                 rep.out.count("wrap/cert/unique");
             }
         } else {
-            let sig = format!("wrap/cert/{}", cert.aspect());
+            // scale class of the domain: the predicates' tolerance has an absolute part (1e-15) and a
+            // part relative to the coordinates, not to their products, so very small and very large
+            // periods are a different regime (recorded findings) from ordinary ones
+            let (lo, hi) = domain.iter().fold((f64::INFINITY, 0.0f64), |(a, b), &x| (a.min(x), b.max(x)));
+            let scale = match (lo < 1e-2, hi > 1e3) {
+                (false, false) => "unit",
+                (true, false) => "small",
+                (false, true) => "large",
+                (true, true) => "mixed",
+            };
+            let sig = format!("wrap/cert/{}/{}", scale, cert.aspect());
             rep.violation(&sig, format!("result of .toroidal({:?}) is not a certified triangulation of its (wrapped) vertices: {}", domain, cert.summary()), json!({"failures": cert.summary()}));
         }
     }
